@@ -10,6 +10,7 @@ The name starts with "_" so that checks/__init__.py does not take it for a check
 import glob
 import json
 import os
+import re
 import sys
 from concurrent.futures import ThreadPoolExecutor
 
@@ -106,6 +107,9 @@ def load_decls(c, n_sampled):
     decls = corner_decls()
     if not decls:
         raise vlib.ToolFailure("no corner declarations in %s" % DECL_DIR)
+    only = os.environ.get("VERIF_GATT_ONLY")        # development aid: restrict to declarations whose name contains this
+    if only:
+        return [d for d in decls if only in d["name"]] or decls[:1]
     return decls + sampled_decls(c, n_sampled)
 
 
@@ -172,13 +176,11 @@ def validate(c, traces):
         verdicts = list(ex.map(lambda p: vlib.validate_trace(SPEC_DIR, "GattTrace.tla", "Trace.cfg", p, timeout=1500), traces))
     for tp, v in zip(traces, verdicts):
         why = {}
-        for line in v.out.splitlines():
-            line = line.strip()
-            if line.startswith('<<"WHY"'):
-                t = vlib.parse_tla_value(line)
-                if t:
-                    why[int(t[1])] = (t[2], t[3], sorted(t[4]))
+        why = parse_why(v.out)
         evs = vlib.read_ndjson(tp)
+        missing = [ln for ln in v.mismatch_lines if ln not in why and evs[ln - 1].get("e") != "Crash"]
+        if missing:
+            why.update(rediagnose(c, tp, evs, missing))
         c.add_traces(sum(1 for e in evs if e.get("e") == "Reset"), v.events)
         for ln in v.mismatch_lines:
             ev = evs[ln - 1]
@@ -187,6 +189,40 @@ def validate(c, traces):
             else:
                 res.append((tp, ln, ev, why.get(ln, ("?", "?", ["undiagnosed"]))))
     return res
+
+
+def parse_why(out):
+    """<<"WHY", line, name, context, {tags}>> values; TLC wraps long values over several lines and its progress
+    reporter may print in between"""
+    out = "\n".join(l for l in out.splitlines() if not l.startswith("Progress("))
+    why = {}
+    for m in re.finditer(r'<<"WHY",.*?>>', out, re.S):
+        t = vlib.parse_tla_value(" ".join(m.group(0).split()))
+        if t and len(t) == 5:
+            why[int(t[1])] = (t[2], t[3], sorted(t[4]))
+    return why
+
+
+def rediagnose(c, tp, evs, lines):
+    """diagnosis lines that could not be read from the output of the big run: validate the events again, each in an
+    execution of its own (Reset [+ Mtu] + event)"""
+    mini, back = [], {}
+    for ln in lines:
+        i = ln - 1
+        while i >= 0 and evs[i].get("e") != "Reset":
+            i -= 1
+        if i < 0:
+            continue
+        mini.append(evs[i])
+        if i + 1 < len(evs) and evs[i + 1].get("e") == "Mtu":
+            mini.append(evs[i + 1])
+        mini.append(evs[ln - 1])
+        back[len(mini)] = ln
+    mp = tp + ".rediag.ndjson"
+    vlib.write_lines(mp, mini)
+    v = vlib.validate_trace(SPEC_DIR, "GattTrace.tla", "Trace.cfg", mp, timeout=1500)
+    w = parse_why(v.out)
+    return {back[k]: w[k] for k in w if k in back}
 
 
 def count_events(traces, counts):
